@@ -13,6 +13,8 @@ CLAIMED = {
          "Offence kinds are restricted per archive to definite mismatches (e.g. XML cannot tell an object from an array, a CSV cell is always a valid string). The unfaulted load is the specification for the neighbours."),
  "C10": ("exploration", "seeded simulation: differential memory-load vs stream-load of the same bytes under seeded delivery schedules of a simulated streambuf (file/pipe, 1..300 bytes per underflow), chunk-size knobs and storage-corruption faults; stream save vs memory save", "6 C10",
          "Samples the space of (document, corruption, delivery schedule, knob) tuples; the memory outcome is the specification, so an error shared by both readers is invisible. Trusted: libstdc++ iostreams, RapidJSON, pugixml, the harness models."),
+ "C13": ("exploration", "seeded simulation: text encoded by an independent reference codec (5 encodings, with/without BOM, code points of every UTF-8/UTF-16 length round the chunk boundary) on a simulated file with an EOF fault at a seeded byte, read through CEncodedStreamReader for every target width, chunk size (32/64/256 by template, 36/40/128 by the guarded knob) and both policies under seeded delivery schedules; CEncodedStreamWriter output against the reference encoding under seeded Write() splits and out-buffer sizes; hand-built reference-encoded CSV/JSON/XML documents through the stream entry points", "6 C13",
+         "BOM-less texts begin with an ASCII character other than NUL (the property's precondition) and contain no NUL; the first character is never NUL (FF FE 00 00 is ambiguous). UTF-8 into a char target is a byte copy by design. The RapidYAML entry point is not built."),
  "C18": ("exploration", "seeded simulation: histories of 2-6 loads into one persistent target holding every std adapter the library ships (sequence, associative, unordered containers, adapters, optional, smart pointers, bitset, tuple, pair, atomic, strings, nested combinations, CSV rows), with intermediate loads aborted midway by injected faults (EOF at a byte, k-th allocation failing, device error silent or thrown); final state compared with the same load into a default-constructed target; MapLoadMode::OnlyExistKeys/UpdateKeys against a reference map replaying the history; allocator ledger balanced after the target is destroyed", "6 C18",
          "Differential against a fresh target: an error shared by both is invisible. Text formats: string fields are non-empty (\"\" is null there and null leaves a field unchanged by the documented rule). KF-XML-NULL-VS-EMPTY avoided in 63 of 64 runs."),
  "C20": ("fault_enumeration", "seeded simulation with exhaustive fault sweeps: for each seeded scenario (archive x dyn/zoo model x save/load x memory/stream) one fault kind is injected at EVERY position in turn - EOF at every byte, the k-th operator new failing for every k inside the library call, the simulated streambuf failing silently (badbit) or by throwing at every byte on load and on save, and library-detected errors at every place the scenario offers (CSV row width at every row, mismatched value at every field with ThrowError, unencodable text at every string, size() lie at every array); oracle = std::exception reaches the caller, no std::terminate/signal/sanitizer report/hang, MessagePack prefixes rejected, failure observable on return, exact allocator-ledger balance, partly loaded target reloadable", "6 C20",
@@ -31,7 +33,7 @@ NA = {
  "C16": "pure number<->text conversion",
  "C17": "pure function of (document, validators, maxValidationErrors); the error map lives and dies inside one call",
 }
-PENDING = {k: 'claimed in DESIGN.md; its check is still under construction in this session and is not registered until it runs clean' for k in ['C13','C19']}
+PENDING = {k: 'claimed in DESIGN.md; its check is still under construction in this session and is not registered until it runs clean' for k in ['C19']}
 
 def main():
     commits = subprocess.run(["git", "-C", "/repo", "log", "--format=%H %s"], stdout=subprocess.PIPE, text=True).stdout.splitlines()
